@@ -68,10 +68,19 @@ func (o *Ops) TakePanics() []string {
 
 // OpClient is a websocket client with a reader goroutine.
 type OpClient struct {
-	Conn   *websocket.Conn
-	mu     sync.Mutex
-	frames []string
-	Closed bool
+	Conn    *websocket.Conn
+	mu      sync.Mutex
+	frames  []string
+	Closed  bool
+	stalled chan struct{} // closed by Stall: the reader stops reading, the connection stays open
+}
+
+// Stall makes the client stop reading for good while keeping its TCP connection open (a frozen peer).
+func (c *OpClient) Stall() {
+	if tc, ok := c.Conn.UnderlyingConn().(*net.TCPConn); ok {
+		tc.SetReadBuffer(2048)
+	}
+	close(c.stalled)
 }
 
 func (o *Ops) Dial() (*OpClient, error) {
@@ -80,9 +89,14 @@ func (o *Ops) Dial() (*OpClient, error) {
 	if err != nil {
 		return nil, err
 	}
-	oc := &OpClient{Conn: c}
+	oc := &OpClient{Conn: c, stalled: make(chan struct{})}
 	go func() {
 		for {
+			select {
+			case <-oc.stalled:
+				select {} // never reads again
+			default:
+			}
 			_, msg, err := c.ReadMessage()
 			if err != nil {
 				oc.mu.Lock()
@@ -192,9 +206,14 @@ func (o *Svc) Dial() (*OpClient, error) {
 	if err != nil {
 		return nil, err
 	}
-	oc := &OpClient{Conn: c}
+	oc := &OpClient{Conn: c, stalled: make(chan struct{})}
 	go func() {
 		for {
+			select {
+			case <-oc.stalled:
+				select {} // never reads again
+			default:
+			}
 			_, msg, err := c.ReadMessage()
 			if err != nil {
 				oc.mu.Lock()
